@@ -369,6 +369,39 @@ fn cmd_minimize(path: &str, out: &str, budget_s: u64) -> i32 {
         eprintln!("replay file has no expected violation");
         return 2;
     };
+    if expect.invariant == "process-crash" {
+        // a crash cannot be observed in-process: every candidate runs in a child of its own
+        let exe = std::env::current_exe().expect("own path");
+        let tmp = format!("{}.cand.json", out);
+        let rf_base = rf.clone();
+        let crashes = |s: &Scn| -> bool {
+            let mut c = rf_base.clone();
+            c.scenario = serde_json::to_value(s).unwrap();
+            c.expect = None;
+            if std::fs::write(&tmp, serde_json::to_vec(&c).unwrap()).is_err() {
+                return false;
+            }
+            match std::process::Command::new(&exe).arg("replay").arg(&tmp).stdout(std::process::Stdio::null()).stderr(std::process::Stdio::null()).status() {
+                Ok(st) => {
+                    use std::os::unix::process::ExitStatusExt;
+                    st.signal().is_some()
+                }
+                Err(_) => false,
+            }
+        };
+        if !crashes(&scn) {
+            let _ = std::fs::remove_file(&tmp);
+            return 0;
+        }
+        let (min, accepted) = minimize::minimise(scn, crashes, shrink, std::time::Duration::from_secs(budget_s));
+        let _ = std::fs::remove_file(&tmp);
+        let mut rf2 = rf;
+        rf2.scenario = serde_json::to_value(&min).unwrap();
+        rf2.minimised = accepted > 0;
+        rf2.note = format!("minimised in child processes: {} shrink steps accepted", accepted);
+        std::fs::write(out, serde_json::to_vec_pretty(&rf2).unwrap()).expect("write minimised replay");
+        return 0;
+    }
     let (min, accepted) = on_big_stack(move || {
         common::install_panic_hook();
         engine::install_hooks();
